@@ -41,6 +41,12 @@ type Curve struct {
 	Complete           bool
 }
 
+// PresetConsts are curve constants handed to a constructor instead of being read from the library.
+type PresetConsts struct{ Order, Cofactor, A, D, BaseX, BaseY *big.Int }
+
+// Preset, when it has an entry for a package path, makes the constructor of that adapter skip GetEdwardsCurve.
+var Preset = map[string]PresetConsts{}
+
 // Bind builds the oracle curve and validates the library constants.
 func (g *Curve) Bind() error {
 	g.F = ofield.Prime(g.Q)
